@@ -17,7 +17,7 @@ for f in mutants/*${PAT}*.patch; do
   tests=$(cd /repo && cargo test --offline 2>&1 | grep -E "^test result" | head -1 | sed 's/test result: //; s/;.*//')
   out=$(./check $prop --tier quick 2>&1); rc=$?
   nviol=$(echo "$out" | grep -c "^VIOLATION property=$prop ")
-  first=$(echo "$out" | grep "^violation: property=$prop" | head -1 | cut -c1-200)
+  first=$(echo "$out" | grep "^violation: property=$prop" | head -1 | tr "\n\t" "  " | cut -c1-200 | iconv -f utf-8 -t utf-8 -c)
   git -C /repo checkout -- .
   t1=$(date +%s)
   echo -e "$name\t$prop\t$tests\t$rc\t$nviol\t$((t1-t0))\t$first" >> $OUT
